@@ -53,7 +53,7 @@ class Op:
 class Task:
     __slots__ = (
         "name", "label", "role", "index", "body", "thread", "lock", "pending", "state", "killed",
-        "aborted", "timed_out", "nops", "outcome", "spins", "proc",
+        "aborted", "timed_out", "nops", "outcome", "spins", "proc", "sig_pending", "wake_for_signal",
     )
 
     def __init__(self, name, label, role, index, body):
@@ -74,6 +74,8 @@ class Task:
         self.outcome = None
         self.spins = 0
         self.proc = None
+        self.sig_pending = []  # (signal number, python handler) to run in this task's main thread
+        self.wake_for_signal = False
 
 
 class Action:
@@ -181,19 +183,29 @@ class Kernel:
                 lk.acquire()
             raise (SimAbort() if task.aborted else SimKilled())
         op.t_start = self.now
-        task.pending = op
-        task.state = "parked"
-        self.current = None
-        nxt = self._schedule_safe()
-        if nxt is not task:
-            self._handoff(nxt)
-            task.lock.acquire()
-        self.current = task
-        task.state = "running"
-        if task.aborted:
-            raise SimAbort()
-        if task.killed:
-            raise SimKilled()
+        while True:
+            task.pending = op
+            task.state = "parked"
+            self.current = None
+            nxt = self._schedule_safe()
+            if nxt is not task:
+                self._handoff(nxt)
+                task.lock.acquire()
+            self.current = task
+            task.state = "running"
+            if task.aborted:
+                raise SimAbort()
+            if task.killed:
+                raise SimKilled()
+            if task.wake_for_signal:
+                # a Python-level signal handler runs in the main thread, also while it is blocked in a
+                # system call (EINTR); if the handler returns normally the interrupted call is resumed
+                task.wake_for_signal = False
+                while task.sig_pending:
+                    signum, handler = task.sig_pending.pop(0)
+                    handler(signum, None)
+                continue
+            break
         task.nops += 1
         to = task.timed_out
         task.timed_out = False
@@ -212,6 +224,8 @@ class Kernel:
                 acts.append(Action(t.label, "task", t))
             if op.can_timeout is not None and op.can_timeout():
                 acts.append(Action("T" + t.label, "timeout", t))
+            if t.sig_pending:
+                acts.append(Action("H" + t.label, "sighandler", t))
         for fn in self.extra_actions:
             acts.extend(fn())
         return acts
@@ -288,6 +302,11 @@ class Kernel:
                 self.now += op.timeout
             if self.on_step:
                 self.on_step(self, act, op)
+            return t
+        if act.kind == "sighandler":
+            t = act.target
+            self._note(act.label, "sighandler", "%d" % t.sig_pending[0][0])
+            t.wake_for_signal = True
             return t
         if act.kind == "timeout":
             t = act.target
